@@ -92,6 +92,9 @@ type Field struct {
 	Dep        string // "b" for optional=b, "!b" for optional=!b
 	HasDefault bool
 	Default    string
+	// DefaultElems: the elements of a `default=[a,b]` declared on a slice field
+	// (HasDefault is set and Default holds the bracketed text).
+	DefaultElems []string
 	Range      *Range
 	Options    []string
 	FromString bool
@@ -262,6 +265,25 @@ func (t *Type) Shapes() map[string]bool {
 	return out
 }
 
+// HasPtrSliceDefault reports whether some field of the (struct) spec declares a
+// default on a pointer-to-slice field (finding N3), recursively.
+func (t *Type) HasPtrSliceDefault() bool {
+	switch t.Kind {
+	case reflect.Struct:
+		for _, f := range t.Fields {
+			if f.DefaultElems != nil && f.T.Kind == reflect.Ptr {
+				return true
+			}
+			if f.T.HasPtrSliceDefault() {
+				return true
+			}
+		}
+	case reflect.Ptr, reflect.Slice, reflect.Map:
+		return t.Elem.HasPtrSliceDefault()
+	}
+	return false
+}
+
 func (t *Type) shapes(out map[string]bool) {
 	switch t.Kind {
 	case reflect.Ptr:
@@ -339,7 +361,7 @@ func genStruct(t *rapid.T, cfg GenConfig, depth int) *Type {
 			}
 		}
 		f.T = genFieldType(t, cfg, key, depth)
-		genOptions(t, f)
+		genOptions(t, f, cfg)
 		st.Fields = append(st.Fields, f)
 	}
 	// dependency options: the target is another field of the same struct read from the
@@ -482,7 +504,7 @@ var (
 
 // genOptions draws the tag options of a field.  Scalars and pointers to scalars
 // take every option; structs and containers only the optional forms.
-func genOptions(t *rapid.T, f *Field) {
+func genOptions(t *rapid.T, f *Field, cfg GenConfig) {
 	switch rapid.IntRange(0, 9).Draw(t, "optmode") {
 	case 0, 1:
 		f.Optional = true
@@ -496,6 +518,7 @@ func genOptions(t *rapid.T, f *Field) {
 		if f.Dep == "?" {
 			f.Dep = "x" // placeholder: non-negated dependency
 		}
+		genSliceDefault(t, f, cfg)
 		return
 	}
 	if f.Dep == "?" {
@@ -538,6 +561,44 @@ func genOptions(t *rapid.T, f *Field) {
 	if f.TagKey == "json" && rapid.IntRange(0, 99).Draw(t, "fromstring") < 15 {
 		f.FromString = true
 	}
+}
+
+// genSliceDefault declares `default=[...]` on a slice of scalars ([]T, []*T and the
+// pointer-to-slice shape *[]T): the only container default the code supports (a map
+// default is an "unsupported type" error, structs have none).
+func genSliceDefault(t *rapid.T, f *Field, cfg GenConfig) {
+	ty := f.T
+	ptrToSlice := ty.Kind == reflect.Ptr && ty.Elem.Kind == reflect.Slice
+	if ptrToSlice {
+		ty = ty.Elem
+	}
+	if ty.Kind != reflect.Slice || !ty.Elem.Deref().IsScalar() ||
+		(ty.Elem.Kind == reflect.Ptr && ty.Elem.Elem.Kind == reflect.Ptr) {
+		return
+	}
+	if rapid.IntRange(0, 99).Draw(t, "slicedefault") >= 40 {
+		return
+	}
+	if ptrToSlice && cfg.Exclude["N3"] {
+		if cfg.OnExcluded != nil {
+			cfg.OnExcluded()
+		}
+		return
+	}
+	k := ty.Elem.Deref().Kind
+	var pool []string
+	if k == reflect.String {
+		pool = []string{"west", "north", "east", "a", "B", "x1", "7", "1.5", "true"}
+	} else {
+		pool = validLiterals(&Field{}, k, false)
+	}
+	n := rapid.IntRange(0, 3).Draw(t, "ndefault")
+	f.DefaultElems = []string{}
+	for i := 0; i < n; i++ {
+		f.DefaultElems = append(f.DefaultElems, rapid.SampledFrom(pool).Draw(t, "delem"))
+	}
+	f.HasDefault = true
+	f.Default = "[" + strings.Join(f.DefaultElems, ",") + "]"
 }
 
 // genRange draws a range whose ends are small dyadic rationals (exact in float32
@@ -885,11 +946,9 @@ func needsValue(st *Type) bool {
 		switch {
 		case strings.HasPrefix(f.Dep, "!"):
 			return true
-		case f.IsOptional():
+		case f.IsOptional() || f.HasDefault:
 		case d.IsScalar():
-			if !f.HasDefault {
-				return true
-			}
+			return true
 		case f.T.Kind == reflect.Struct:
 			if needsValue(d) {
 				return true
@@ -1827,6 +1886,10 @@ func (c *checker) field(f *Field, raw any, present bool, v reflect.Value, path s
 		c.structure(d, nil, map[string]any{}, dv, path)
 	default: // slice or map
 		if !present {
+			if f.DefaultElems != nil {
+				c.sliceDefault(f, v, path)
+				return
+			}
 			if !isEmptyish(v) {
 				c.fail("(d) %s: absent container decoded to %v", path, v.Interface())
 			}
@@ -1836,6 +1899,30 @@ func (c *checker) field(f *Field, raw any, present bool, v reflect.Value, path s
 			return
 		}
 		c.value(f.T, raw, v, path)
+	}
+}
+
+// sliceDefault: an absent slice field with `default=[...]` holds exactly the declared
+// elements, in the declared order.
+func (c *checker) sliceDefault(f *Field, v reflect.Value, path string) {
+	dv, ok := derefValue(v)
+	n := 0
+	if ok {
+		n = dv.Len()
+	}
+	if n != len(f.DefaultElems) {
+		c.fail("(d) %s: absent, default %s declared, target holds %d elements: %v", path, f.Default, n, v.Interface())
+		return
+	}
+	k := f.T.Deref().Elem.Deref().Kind
+	for i, lit := range f.DefaultElems {
+		ev, ok := derefValue(dv.Index(i))
+		r := refScalar(k, lit)
+		if !ok {
+			c.fail("(d) %s[%d]: absent, default %s declared, element is a nil pointer", path, i, f.Default)
+		} else if r.status == stOK && !r.holds(k, ev) {
+			c.fail("(d) %s[%d]: absent, default %s declared, target holds %v", path, i, f.Default, ev.Interface())
+		}
 	}
 }
 
@@ -2011,6 +2098,12 @@ func FK(key, name string, ty *Type, opts ...string) *Field {
 			f.Dep = o[len("optional="):]
 		case strings.HasPrefix(o, "default="):
 			f.HasDefault, f.Default = true, o[len("default="):]
+			if d := ty.Deref(); d.Kind == reflect.Slice {
+				f.DefaultElems = []string{}
+				if inner := strings.Trim(f.Default, "[]"); inner != "" {
+					f.DefaultElems = strings.Split(inner, ",")
+				}
+			}
 		case strings.HasPrefix(o, "options="):
 			f.Options = strings.Split(o[len("options="):], "|")
 		case strings.HasPrefix(o, "range="):
